@@ -30,12 +30,12 @@ type defRange struct {
 	Agg        uint32
 }
 type bigDef struct {
-	ID      uint32
-	Fmt     uint32
-	From    uint32 // streams From .. From+Count-1
-	Count   uint32
-	Agg     uint32
-	AltAgg  uint32 // if non-zero: odd streams use this aggregator
+	ID     uint32
+	Fmt    uint32
+	From   uint32 // streams From .. From+Count-1
+	Count  uint32
+	Agg    uint32
+	AltAgg uint32 // if non-zero: odd streams use this aggregator
 }
 type setDesc struct {
 	Ranges []defRange         `json:"ranges,omitempty"`
@@ -395,7 +395,9 @@ func mkConv(r *rand.Rand, f int, start, target setDesc, extraRounds int, tags ..
 func genConverge(seed int64, n int, tier string) []caseRec {
 	r := rand.New(rand.NewSource(seed))
 	var cs []caseRec
-	full := func(from, to uint32) setDesc { return setDesc{Ranges: []defRange{{From: from, To: to, Fmt: 99, StreamBase: 0, Agg: 1}}} }
+	full := func(from, to uint32) setDesc {
+		return setDesc{Ranges: []defRange{{From: from, To: to, Fmt: 99, StreamBase: 0, Agg: 1}}}
+	}
 	// at the channel cap: 2000 channels, the target swaps k ids (removals and additions in the same round)
 	for _, k := range []uint32{5, 7} {
 		cs = append(cs, mkConv(r, 1, full(1, 2000), full(1+k, 2000+k), 2, "directed", "cap-swap"))
